@@ -1,3 +1,98 @@
-From SV Require Import Num Curve.
-Theorem placeholder : True. Proof. exact I. Qed.
-Print Assumptions placeholder.
+(* Property C03 — charging-curve lookup and clamping are exact piecewise-linear operations.
+   Only statements live here; proofs are in theories/CurveProps.v and CurveGrid.v.
+   Model: theories/Curve.v (LoadingCurve.__init__, power_from_soc, clamped,
+   VehicleType's default discharge curve), tied to /repo by the exact correspondence
+   run by ./check C03.  R-instance theorems quantify over ALL curves/limits/factors/SoCs. *)
+From Coq Require Import Reals List QArith Lra.
+From SV Require Import Num RNum Curve CurveProps CurveGrid.
+Import ListNotations.
+Open Scope R_scope.
+
+(* 1. The looked-up power is the linear interpolation between the neighbouring points. *)
+Theorem C03_lookup : forall (c:@curve R) s i p q,
+  incr (pts c) -> s <= 1 ->
+  nth_error (pts c) i = Some p -> nth_error (pts c) (S i) = Some q -> fst p <= s <= fst q ->
+  @power_from_soc R RNum c s = Ok (snd p + (snd q - snd p) * ((s - fst p) / (fst q - fst p))).
+Proof. exact lookup_is_lerp. Qed.
+Print Assumptions C03_lookup.
+
+Theorem C03_lookup_at_point : forall (c:@curve R) i p,
+  wf_curve c -> nth_error (pts c) i = Some p -> @power_from_soc R RNum c (fst p) = Ok (snd p).
+Proof. exact lookup_at_point. Qed.
+Print Assumptions C03_lookup_at_point.
+
+Theorem C03_lookup_total : forall (c:@curve R) s,
+  wf_curve c -> 0 <= s <= 1 -> exists v, @power_from_soc R RNum c s = Ok v.
+Proof. exact lookup_total. Qed.
+Print Assumptions C03_lookup_total.
+
+(* 2. clamped(limit, pre, post) = post * min(pre * curve(s), limit) at every SoC in [0,1],
+      for every well-formed curve and ALL real limit / pre / post; the result is again an
+      ordered curve from 0 to 1 (so the constructor asserts hold) and its max_power is the
+      fold of max over its points. *)
+Theorem C03_clamped_pointwise : forall (c:@curve R) lim pre post, wf_curve c ->
+  exists c', @clamped R RNum c lim pre post = Ok c' /\ wf_weak c' /\ maxp c' = maxfold (pts c') /\
+    forall s, 0 <= s <= 1 -> exists v, @power_from_soc R RNum c s = Ok v /\
+                                       @power_from_soc R RNum c' s = Ok (post * Rmin (pre * v) lim).
+Proof. exact clamped_pointwise. Qed.
+Print Assumptions C03_clamped_pointwise.
+
+(* 3. max_power is the maximum over the points, and bounds the curve on [0,1]. *)
+Theorem C03_max_power : forall (c:@curve R), pts c <> [] -> maxp c = maxfold (pts c) -> nonneg (pts c) ->
+  Forall (fun p => snd p <= maxp c) (pts c) /\ In (maxp c) (map snd (pts c)).
+Proof. exact max_power_is_max. Qed.
+Print Assumptions C03_max_power.
+
+Theorem C03_constructor_fields : forall l (c:@curve R), @mk_curve R RNum l = Ok c ->
+  pts c = @sortpts R RNum l /\ maxp c = maxfold (pts c).
+Proof. exact mk_curve_fields. Qed.
+Print Assumptions C03_constructor_fields.
+
+Theorem C03_max_power_bounds_curve : forall (c:@curve R) s v,
+  wf_curve c -> maxp c = maxfold (pts c) -> nonneg (pts c) -> 0 <= s <= 1 ->
+  @power_from_soc R RNum c s = Ok v -> 0 <= v <= maxp c.
+Proof. exact max_power_bounds_curve. Qed.
+Print Assumptions C03_max_power_bounds_curve.
+
+(* 4. Default discharge curve = V2G power factor * charging curve at every SoC
+      (0 < factor <= 1; for factor > 1 the code additionally caps at max_power, see
+      C03_default_discharge_general — the property text presumes a factor <= 1). *)
+Theorem C03_default_discharge : forall (c:@curve R) f,
+  wf_curve c -> maxp c = maxfold (pts c) -> nonneg (pts c) -> 0 < f <= 1 ->
+  exists c', @default_discharge R RNum c f = Ok c' /\ wf_weak c' /\
+    forall s, 0 <= s <= 1 -> exists v, @power_from_soc R RNum c s = Ok v /\ @power_from_soc R RNum c' s = Ok (f * v).
+Proof. exact default_discharge_scaled. Qed.
+Print Assumptions C03_default_discharge.
+
+Theorem C03_default_discharge_general : forall (c:@curve R) f, wf_curve c ->
+  exists c', @default_discharge R RNum c f = Ok c' /\
+    forall s, 0 <= s <= 1 -> exists v, @power_from_soc R RNum c s = Ok v /\
+                                       @power_from_soc R RNum c' s = Ok (Rmin (f * v) (maxp c)).
+Proof. exact default_discharge_general. Qed.
+Print Assumptions C03_default_discharge_general.
+
+(* 5. Exhaustive sweep on the rational grid (executable Q instance, exact arithmetic):
+      all 976 curves with 2-4 points, SoC in {0,1/4,1/2,3/4,1}, power in {0,5,10,20};
+      all 54 (limit, pre, post) in {0,4,5,8,10,25} x {1/2,1,2}^2; 17 probes k/16 plus the
+      result's own break points. *)
+Theorem C03_grid_exhaustive : forall l prm, In l grid_curves -> In prm grid_params ->
+  check_lookup l = true /\ check_clamp l prm = true.
+Proof. exact grid_exhaustive. Qed.
+Print Assumptions C03_grid_exhaustive.
+
+(* 6. The pinned upstream revision (clamped_orig, defect D1, repaired by /repo commit
+      "fix: clamped() must take both section end points ...") does NOT satisfy statement 2. *)
+Theorem C03_clamped_orig_refuted : violates (@clamped_orig Q N0) = true.
+Proof. exact clamped_orig_refuted. Qed.
+Print Assumptions C03_clamped_orig_refuted.
+
+(* Non-vacuity: a concrete tapered curve meets every hypothesis used above. *)
+Definition ex_curve : @curve R := {| pts := [(0,11); (4/5,11); (1,2)]; maxp := 11 |}.
+Example C03_hypotheses_satisfiable : wf_curve ex_curve /\ nonneg (pts ex_curve) /\ maxp ex_curve = maxfold (pts ex_curve).
+Proof.
+  split; [|split].
+  - unfold wf_curve, wf_pts, ex_curve, lastx; cbn. repeat split; try lra. auto.
+  - unfold nonneg, ex_curve; cbn. repeat constructor; cbn; lra.
+  - unfold ex_curve, maxfold; cbn [pts maxp fold_left snd]. rewrite !nmax_R, zero_0.
+    unfold Rmax; repeat destruct Rle_dec; lra.
+Qed.
